@@ -144,6 +144,7 @@ static int forced_mod[MAXT];
 static int vfork_ms = 0, leader_exits = 0;
 static int want_mapper = 0;
 static int name_at_edge = -1;
+static int name_null_at = -1;   // -N K: the K-th loaded object's l_name is NULL (as entry 0's is)
 static int is_mapper[MAXT];
 static uint64_t mapper_at = 0;
 static int is_slow[MAXT];
@@ -246,7 +247,7 @@ int main(int argc, char **argv) {
   memset(sh, 0, sizeof *sh);
 
   int c;
-  while ((c = getopt(argc, argv, "t:s:n:o:S:r:m:M:F:d:gw:D:ZV:LGf:E:")) != -1) {
+  while ((c = getopt(argc, argv, "t:s:n:o:S:r:m:M:F:d:gw:D:ZV:LGf:E:N:")) != -1) {
     switch (c) {
       case 't': nblock = atoi(optarg); break;
       case 's': nspin = atoi(optarg); break;
@@ -393,6 +394,7 @@ int main(int argc, char **argv) {
       case 'L': break;
       case 'G': want_mapper = 1; break;
       case 'E': name_at_edge = atoi(optarg); break;
+      case 'N': name_null_at = atoi(optarg); break;
       case 'V': vfork_ms = atoi(optarg); break;
       default: return 2;
     }
@@ -452,7 +454,8 @@ int main(int argc, char **argv) {
       snprintf(lnames[i], 64, i == 0 ? "" : "/lib/synthetic/libdso%d.so.%d", i, i);
       if (i > 0 && i < 64 && dname_len[i] >= 0) { memset(lnames[i], 0, 64); memcpy(lnames[i], dname[i], dname_len[i]); }
       lms[i].l_addr = 0x10000000ull * (i + 1);
-      lms[i].l_name = i == 0 ? NULL : lnames[i];
+      lms[i].l_name = (i == 0 || i == name_null_at) ? NULL : lnames[i];
+      if (i > 0 && i == name_null_at) memset(lnames[i], 0, 64);
       if (i > 0 && i == name_at_edge) {
         uint8_t *pg = mmap(NULL, 2 * page, PROT_READ | PROT_WRITE, MAP_PRIVATE | MAP_ANONYMOUS, -1, 0);
         if (pg != MAP_FAILED) {
@@ -489,7 +492,22 @@ int main(int argc, char **argv) {
     mprotect(stk + GUARD_PAGES * page, stack_size, PROT_READ | PROT_WRITE);      // guard pages on both sides
     stack_lo[i] = (uint64_t)(uintptr_t)(stk + GUARD_PAGES * page);
     stack_hi[i] = stack_lo[i] + stack_size;
-    if (forced_rel[i]) sh->regs[i].adj = stack_lo[i] - forced_sp[i];
+    if (forced_rel[i]) {
+      sh->regs[i].adj = stack_lo[i] - forced_sp[i];
+      // the lowest part of such a thread's stack is not empty: small integers, pointers into the stack and into the
+      // code, and other words — all of it at or above the stack pointer it will wait with
+      uint64_t *w = (uint64_t *)(uintptr_t)stack_lo[i];
+      uint64_t nfill = (stack_size / 2 < 3 * page ? stack_size / 2 : 3 * page) / 8;
+      for (uint64_t k = 0; k < nfill; k++) {
+        switch (k % 5) {
+          case 0: w[k] = k + 1; break;
+          case 1: w[k] = stack_lo[i] + 8 * k; break;
+          case 2: w[k] = (uint64_t)(uintptr_t)&thread_main + (k % 64); break;
+          case 3: w[k] = (uint64_t)-(int64_t)(k % 4000 + 1); break;
+          default: w[k] = 0x4141414100000000ull + k; break;
+        }
+      }
+    }
     pthread_attr_setstack(&at, stk + GUARD_PAGES * page, stack_size);
     pthread_t th;
     if (pthread_create(&th, &at, thread_main, (void *)(intptr_t)i) != 0) return 4;
